@@ -13,7 +13,7 @@ static void load_dicts(const char* path) {
     FILE* f = fopen(path, "rb"); if (!f) { fprintf(stderr, "cannot open %s\n", path); exit(3); }
     for (;;) { u8 b[4]; if (fread(b, 1, 4, f) != 4) break; uint32_t nl = vf_rd32(b); char tmp[1024]; if (nl >= sizeof tmp || fread(tmp, 1, nl, f) != nl) break;
         drec_t* r = &g_d[g_nd]; size_t k = nl < 119 ? nl : 119; memcpy(r->name, tmp, k); r->name[k] = 0;
-        if (fread(b, 1, 4, f) != 4) break; r->n = vf_rd32(b); r->d = (u8*)malloc(r->n + 1); if (fread(r->d, 1, r->n, f) != r->n) break;
+        if (fread(b, 1, 4, f) != 4) break; r->n = vf_rd32(b); r->d = (u8*)malloc(r->n ? r->n : 1);   /* exact size: a read past the dictionary meets a redzone */ if (fread(r->d, 1, r->n, f) != r->n) break;
         if (fread(b, 1, 4, f) != 4) break; r->flags = vf_rd32(b);
         r->id = (r->n >= 8 && vf_rd32(r->d) == 0xEC30A437u) ? vf_rd32(r->d + 4) : 0;
         if (++g_nd >= 256) break; }
@@ -34,6 +34,8 @@ static size_t make_input(int shape, const drec_t* D, u8* p) {
     case 4: for (size_t i = 0; i < 700; i++) p[i] = (u8)(200 + (i * 7 + i / 13) % 56); return 700;                                           /* symbols the tables may omit */
     case 5: fill_noise(p, 400, 3); return 400;
     case 6: fill_text(p, 5000, 4); memcpy(p + 3000, t, tail); return 5000;                                                              /* longer than the 1 KiB-window configs */
+    case 8: memset(p, 'r', 1024); fill_text(p + 1024, 1500, 6); memset(p + 2524, 'q', 1024); return 3548;                                  /* first block (1 KiB-window configs) is a run of one byte, more blocks follow */
+    case 9: fill_text(p, 1024, 8); memset(p + 1024, 0, 1024); fill_noise(p + 2048, 700, 5); return 2748;                                    /* run block in the middle, raw block last */
     default: memcpy(p, D->d, D->n > 4000 ? 4000 : D->n); return D->n > 4000 ? 4000 : D->n;                                              /* the dictionary itself */
     }
 }
@@ -61,7 +63,7 @@ static void body_roundtrip(void) {
     /* ---- IDs ---- */
     unsigned idD = ZSTD_getDictID_fromDict(D->d, D->n), idC = ZSTD_getDictID_fromCDict(cd), idDD = ZSTD_getDictID_fromDDict(dd);
     if (idD != D->id || idC != D->id || idDD != D->id) { vx_fail("dictionary ID queries disagree: dict %u cdict %u ddict %u, header says %u", idD, idC, idDD, D->id); goto done; }
-    for (int shape = 0; shape < 8 && !vx_failed; shape++) for (int noID = 0; noID < 2 && !vx_failed; noID++) {
+    for (int shape = 0; shape < 10 && !vx_failed; shape++) for (int noID = 0; noID < 2 && !vx_failed; noID++) {
         size_t n = make_input(shape, D, g_src); size_t r;
         ZSTD_CCtx_reset(c, ZSTD_reset_session_and_parameters);
         if (cs != 0 && cs != 3) { ZSTD_CCtx_setParameter(c, ZSTD_c_compressionLevel, level); if (smallWin) ZSTD_CCtx_setParameter(c, ZSTD_c_windowLog, 10); }
@@ -115,7 +117,7 @@ static void body_roundtrip(void) {
         }
         vx_obs_u64(vx_hash(g_dst, r)); if (r < n) vx_nontrivial();
     }
-    if (vx_want_sample()) vx_sample("dict#%d %s (%zu B) supply %d attach %d dds %d level %d: 8 shapes x 7 decoders", di, D->name, D->n, cs, attach, dds, level);
+    if (vx_want_sample()) vx_sample("dict#%d %s (%zu B) supply %d attach %d dds %d level %d: 10 shapes x 7 decoders", di, D->name, D->n, cs, attach, dds, level);
 done:
     ZSTD_freeCCtx(c); ZSTD_freeCDict(cd); ZSTD_freeDDict(dd); ZSTD_freeCCtxParams(P);
 }
